@@ -146,13 +146,13 @@ Proof.
   intros n Hn; unfold smallest_size_t_m, holds.
   change (wrapu 8 (-1)) with 255; change (wrapu 16 (-1)) with 65535;
     change (wrapu 32 (-1)) with 4294967295; change (wrapu 64 (-1)) with 18446744073709551615.
-  change (arith_max AUChar) with 255; change (arith_max AUShort) with 65535;
-    change (arith_max AUInt) with 4294967295; change (arith_max AULong) with 18446744073709551615;
-    change (arith_max AULLong) with 18446744073709551615.
   change (2 ^ 64) with 18446744073709551616 in Hn.
-  destruct (n <? 255) eqn:E1; [repeat split; try discriminate; lia|].
-  destruct (n <? 65535) eqn:E2; [repeat split; try discriminate; intros; lia|].
-  destruct (n <? 4294967295) eqn:E3; [repeat split; try discriminate; intros; lia|].
-  destruct (n <? 18446744073709551615) eqn:E4; [repeat split; try discriminate; intros; lia|].
-  repeat split; try discriminate; intros; lia.
+  assert (A1 : arith_max AUChar = 255) by reflexivity.
+  assert (A2 : arith_max AUShort = 65535) by reflexivity.
+  assert (A3 : arith_max AUInt = 4294967295) by reflexivity.
+  assert (A4 : arith_max AULong = 18446744073709551615) by reflexivity.
+  assert (A5 : arith_max AULLong = 18446744073709551615) by reflexivity.
+  destruct (n <? 255) eqn:E1; [|destruct (n <? 65535) eqn:E2; [|destruct (n <? 4294967295) eqn:E3;
+    [|destruct (n <? 18446744073709551615) eqn:E4]]];
+    rewrite ?A1, ?A2, ?A3, ?A4, ?A5; repeat split; try discriminate; intros; lia.
 Qed.
